@@ -30,6 +30,8 @@ type DownCase struct {
 	Pool  int    `json:"pool"`
 	// More: further target kinds every observer relates to as well (one consumer holding several relations on the node)
 	More []string `json:"more"`
+	// Stagger: node B is started more than a second before node A (different incarnation stamps)
+	Stagger bool `json:"stagger"`
 	// SlowReq: the requesting goroutine is descheduled for a moment between sending a remote request and waiting for its result
 	SlowReq bool `json:"slowreq"`
 }
@@ -246,8 +248,12 @@ func (r *DownRunner) RunDown(c *DownCase) error {
 	if pool < 1 {
 		pool = 2
 	}
-	p, err := StartPair(NodeOpts{Name: "ua" + tag + "@localhost", Cookie: "ck", PoolSize: pool, Flags: netFlags},
-		NodeOpts{Name: "ub" + tag + "@localhost", Cookie: "ck", PoolSize: pool, Flags: netFlags})
+	gap := time.Duration(0)
+	if c.Stagger {
+		gap = 1100 * time.Millisecond
+	}
+	p, err := StartPairStaggered(NodeOpts{Name: "ua" + tag + "@localhost", Cookie: "ck", PoolSize: pool, Flags: netFlags},
+		NodeOpts{Name: "ub" + tag + "@localhost", Cookie: "ck", PoolSize: pool, Flags: netFlags}, gap)
 	if err != nil {
 		return err
 	}
